@@ -1,5 +1,89 @@
-From PGV Require Import Base.Value C05.Model C05.Proofs.
+(* C05 — Value equality, hashing, printing and wire encoding are coherent.
+   Only the property theorems (each closed by `exact <lemma>`), Print Assumptions, and
+   non-vacuity Examples.  Model: C05/Model.v (tied to distsys/tla/value.go, vclock.go and
+   distsys/hashmap/hashmap.go by the correspondence check, ./check C05). *)
+From PGV Require Import Base.Value Base.ValueFacts C05.Model C05.Proofs.
+Open Scope N_scope.
 
-Theorem Equal_default : Equal VDefault VDefault = true.
-Proof. exact Equal_default_refl. Qed.
-Print Assumptions Equal_default.
+(* (1) Equality is exactly equality of the denoted TLA+ values: for every two representations
+   (any nesting depth, any iteration order of sets and functions) that the builders can
+   produce, a.Equal(b) holds iff both denote the same canonical value.  Reflexivity,
+   symmetry, transitivity and independence of construction order are corollaries. *)
+Theorem Equal_spec : forall a b, rep_ok a -> rep_ok b ->
+  (Equal a b = true <-> canon a = canon b).
+Proof. exact Equal_spec_lemma. Qed.
+Print Assumptions Equal_spec.
+
+Theorem Equal_equivalence :
+  (forall a, rep_ok a -> Equal a a = true) /\
+  (forall a b, rep_ok a -> rep_ok b -> Equal a b = Equal b a) /\
+  (forall a b c, rep_ok a -> rep_ok b -> rep_ok c ->
+     Equal a b = true -> Equal b c = true -> Equal a c = true).
+Proof. exact (conj Equal_refl (conj Equal_sym Equal_trans)). Qed.
+Print Assumptions Equal_equivalence.
+
+(* the invariant is decided by the runtime's own equality: no two Equal members in a set /
+   no two Equal keys in a function, recursively *)
+Theorem rep_ok_decided : forall v, rep_okb v = true <-> rep_ok v.
+Proof. exact rep_okb_spec. Qed.
+Print Assumptions rep_ok_decided.
+
+(* (2) Equal values hash equally (fnv1a bit-exact, XOR-combined for sets and functions,
+   sequential for tuples). With (1) this is the lawfulness of tla.ValueHasher that
+   immutable.Map needs for set membership and function lookup. *)
+Theorem Hash_Equal : forall a b, rep_ok a -> rep_ok b -> Equal a b = true -> Hash a = Hash b.
+Proof. exact Hash_Equal_lemma. Qed.
+Print Assumptions Hash_Equal.
+
+(* (3) hashmap.HashMap: every sequence of Set / Clear operations with keys that are proper
+   representations behaves as an association map keyed by the denoted value; Keys() lists each
+   key once, in first-insertion order. *)
+Theorem hashmap_refines : forall (V : Type) (ops : list (hop V)),
+  Forall hop_ok ops ->
+  (forall k, rep_ok k -> hm_get (hm_run ops) k = amap_get (amap_run ops) (canon k)) /\
+  map canon (hm_keys (hm_run ops)) = map fst (amap_run ops) /\
+  NoDup (map fst (amap_run ops)).
+Proof. exact (@hashmap_refines_lemma). Qed.
+Print Assumptions hashmap_refines.
+
+(* causal (vector-clock) wrapping is transparent for equality and hashing, at every depth *)
+Theorem EqualC_transparent : forall a b, EqualC a b = Equal (strip a) (strip b).
+Proof. exact EqualC_transparent_lemma. Qed.
+Print Assumptions EqualC_transparent.
+
+Theorem HashC_transparent : forall c, HashC c = Hash (strip c).
+Proof. exact HashC_transparent_lemma. Qed.
+Print Assumptions HashC_transparent.
+
+(* ---- non-vacuity ---- *)
+Definition ex_a : value :=
+  VSet [VFun [(VStr [107], VTup [VNum 1; VDefault]); (VStr [118], VSet [VNum 2; VNum 3])];
+        VTup []; VNum (-7)].
+Definition ex_b : value :=
+  VSet [VNum (-7);
+        VFun [(VStr [118], VSet [VNum 3; VNum 2]); (VStr [107], VTup [VNum 1; VDefault])];
+        VTup []].
+
+Example c05_nonvacuous :
+  rep_ok ex_a /\ rep_ok ex_b /\ ex_a <> ex_b /\ Equal ex_a ex_b = true /\ canon ex_a = canon ex_b
+  /\ Hash ex_a = Hash ex_b /\ Hash ex_a = 2892818778.
+Proof.
+  split; [apply rep_okb_spec; vm_compute; reflexivity|].
+  split; [apply rep_okb_spec; vm_compute; reflexivity|].
+  split; [discriminate|]. repeat split; vm_compute; reflexivity.
+Qed.
+
+Example c05_hashmap_nonvacuous :
+  let ops := [HSet ex_a 1%Z; HSet (VNum 5) 2%Z; HSet ex_b 3%Z; HClear; HSet ex_b 4%Z; HSet ex_a 5%Z] in
+  Forall hop_ok ops /\ hm_get (hm_run ops) ex_a = Some 5%Z /\ List.length (hm_keys (hm_run ops)) = 1%nat.
+Proof.
+  cbn zeta. split.
+  - repeat (apply Forall_cons; [first [exact I | apply rep_okb_spec; vm_compute; reflexivity]|]). apply Forall_nil.
+  - split; vm_compute; reflexivity.
+Qed.
+
+Example c05_wrapped_nonvacuous :
+  let w := CWrap [(CTup [CStr [65]; CNum 1], 2%Z)] CDefault in
+  EqualC w w = true /\ EqualC w CDefault = true /\ EqualC CDefault w = true /\
+  EqualC (CTup [w]) (CTup [CDefault]) = true /\ HashC w = 0.
+Proof. vm_compute. repeat split. Qed.
